@@ -10,6 +10,12 @@ size_t force(uint64_t v) { return ::babylon::SerializationHelper::varint_size(v)
 size_t force2(E64 e, ::std::string& s, ::google::protobuf::io::CodedOutputStream& os, ::google::protobuf::io::CodedInputStream& is) {
   ET::serialize(e, os); ET::deserialize(is, e);
   ST::serialize(s, os); ST::deserialize(is, s);
-  return ET::calculate_serialized_size(e) + ST::calculate_serialized_size(s);
+  int32_t a = 0; int8_t b = 0; bool c = false; int64_t d = 0;
+  ::babylon::SerializeTraits<int32_t>::serialize(a, os); ::babylon::SerializeTraits<int32_t>::deserialize(is, a);
+  ::babylon::SerializeTraits<int8_t>::serialize(b, os); ::babylon::SerializeTraits<int8_t>::deserialize(is, b);
+  ::babylon::SerializeTraits<bool>::serialize(c, os); ::babylon::SerializeTraits<bool>::deserialize(is, c);
+  ::babylon::SerializeTraits<int64_t>::serialize(d, os); ::babylon::SerializeTraits<int64_t>::deserialize(is, d);
+  return ET::calculate_serialized_size(e) + ST::calculate_serialized_size(s) + ::babylon::SerializeTraits<int32_t>::calculate_serialized_size(a)
+       + ::babylon::SerializeTraits<int8_t>::calculate_serialized_size(b) + ::babylon::SerializeTraits<bool>::calculate_serialized_size(c) + ::babylon::SerializeTraits<int64_t>::calculate_serialized_size(d);
 }
 }
